@@ -7,6 +7,21 @@ def hooks_commits():
     return [l.split()[0] for l in out.splitlines() if "verification hook" in l.lower() or "verif hook" in l.lower()]
 
 CHECKS = {
+ "C05": dict(
+   cat="model_checking", design="DESIGN.md section 6 C05",
+   text="Specification -> code: TLC enumerates every reachable list (length <= 3 quick, <= 4 thorough, over values 'a', '', 'x|y') of the DsGen model and, for each, every call of RPush/LPush/LPop/RPop/LPeek/RPeek/LSize/LRange/LRem/LSet/LTrim with every index/count in -n-2..n+1; the replayer executes each emitted transition through transactions (pre-state, call, read-back, reopen) and directly on ds/list.List; the recordings, plus long random list histories, are validated by TLC against Nuts.tla/ListSpec.tla (exact Redis result and post-state for in-range calls, 'clamped or error' where the statement leaves the choice). The API-grain design is model-checked (NutsMC_ls.cfg).",
+   note="Trusts TLC and the recording wrapper. Exhaustive only within the stated bound. Read-your-writes inside one transaction is judged under C13.",
+   technique="TLC-enumerated transitions replayed into the code + TLA+ trace validation of the recordings"),
+ "C06": dict(
+   cat="model_checking", design="DESIGN.md section 6 C06",
+   text="As C05 for sets: TLC enumerates every state of two sets over members {'a','b',''} (quick {'a',''}) and every call of SAdd/SRem/SPop/SMoveByOneBucket/SMoveByTwoBuckets/SIsMember/SAreMembers/SMembers/SCard/SHasKey/SDiff*/SUnion* (repeated and empty members included); each transition is executed through transactions (with read-back and reopen) and on ds/set.Set, and TLC validates the recordings and long random set histories against Nuts.tla/SetSpec.tla. Known deviations (SMove applied in memory only; the empty member cannot be removed) are modelled as named disjuncts and reported as KNOWN-FINDING; anything else is a VIOLATION.",
+   note="Trusts TLC and the recording wrapper. Missing key and empty set are the same observation in the model, so errors are admitted wherever an operand set is empty.",
+   technique="TLC-enumerated transitions replayed into the code + TLA+ trace validation of the recordings"),
+ "C07": dict(
+   cat="model_checking", design="DESIGN.md section 6 C07",
+   text="As C05 for sorted sets: TLC enumerates every sorted set of <= 2 (thorough 3) members over keys {'', 'a', 'b'} and scores {-1,0,1} (ties) and every call of ZAdd/ZRem/ZRemRangeByRank/ZPopMax/ZPopMin and of every query (ZRangeByScore with every bound in -2..2, both orders, both exclusion flags, limits; ZRangeByRank/ZRank/ZRevRank with every rank in -n-2..n+2; ZScore/ZGetByKey/ZCount/ZCard/ZMembers/ZPeekMin/ZPeekMax); every transition is replayed under several skip-list level layouts (math/rand seeded per repetition) through transactions and on ds/zset.SortedSet; recordings and long random histories are validated by TLC against ZSetSpec.tla (order by (score,key); every returned node must be a member with its score and value).",
+   note="Trusts TLC and the recording wrapper. Scores are small integers; NaN/Inf are outside the statement and only covered by C20.",
+   technique="TLC-enumerated transitions replayed into the code + TLA+ trace validation of the recordings"),
  "C01": dict(
    cat="model_checking", design="DESIGN.md section 6 C01",
    text="Trace validation: seeded random KV histories (multi-bucket, TTL on both sides of expiry, segments of 128-512 bytes so nearly every transaction rotates, reopen) are executed on the real library in HintKeyValAndRAMIdxMode and HintKeyAndRAMIdxMode x FileIO and MMap, every call is recorded, and TLC accepts the trace only if every Get/GetAll/RangeScan/PrefixScan/PrefixSearchScan result equals the KVSpec ordered-map-with-TTL result on the specification state (Nuts.tla). The API-grain design is model-checked exhaustively for a small universe (NutsMC_kv.cfg).",
